@@ -476,7 +476,7 @@ func checkC05(t *testing.T, job *Job, res *Result) {
 		exploreH(t, job, res, c05HSpec(tier))
 	}
 	res.Engine = "S+H"
-	res.Rule += "; engine H part: every history up to the depth bound over deploy/redeploy/remove of three services with bindings from {default, a.example.com, *.example.com, a+b} x {/, /api, /+/api}; oracle: reference ownership map predicts each result (nil or host-in-use) and every cell of the routing matrix"
+	res.Rule += "; engine H part: every history up to the depth bound over deploy/redeploy/remove of three services with bindings from {default, a.example.com, *.example.com, a+b} x {/, /api, /+/api, /app, /app+/api}; oracle: reference ownership map predicts each result (nil or host-in-use) and every cell of the routing matrix"
 }
 
 func c05HSpec(tier string) *HSpec {
@@ -495,6 +495,10 @@ func c05HSpec(tier string) *HSpec {
 				alpha = append(alpha, fmt.Sprintf("deploy %s h=%s p=%s", n, h, p))
 			}
 		}
+		// two prefixes of equal length on one host (ordering by length alone cannot tell them apart)
+		for _, h := range []string{"-", "a.example.com"} {
+			alpha = append(alpha, fmt.Sprintf("deploy %s h=%s p=/app", n, h), fmt.Sprintf("deploy %s h=%s p=/app,/api", n, h))
+		}
 		alpha = append(alpha, "remove "+n)
 	}
 	return &HSpec{
@@ -512,7 +516,7 @@ func c05HSpec(tier string) *HSpec {
 			}
 			return alpha
 		},
-		Obs:     ObsSpec{Hosts: []string{"a.example.com", "b.example.com:8080", "x.example.com", "other.org"}, Paths: []string{"/", "/api", "/api/x", "/apiary"}, Cookies: []string{""}, TLS: []bool{false}},
+		Obs:     ObsSpec{Hosts: []string{"a.example.com", "b.example.com:8080", "x.example.com", "other.org"}, Paths: []string{"/", "/api", "/api/x", "/apiary", "/app/y"}, Cookies: []string{""}, TLS: []bool{false}},
 		Clauses: map[string]bool{"routing": true, "target-set": true, "list": true, "gate": true, "tls-policy": true},
 	}
 }
